@@ -154,7 +154,7 @@ static void emit(struct Slot* objs, const char* op, int o, int k, int v, long lo
   for (size_t i = 0; i + 1 < n_init; i += 2) { if (i) ev_s(","); ev_s("["); ev_i(init_pairs[i]); ev_s(","); ev_i(init_pairs[i + 1]); ev_s("]"); }
   ev_arr_end();
   n_init = 0;
-  force_full = !strcmp(op, "snap");
+  force_full = !strcmp(op, "snap") || !strcmp(op, "xasg");
   cur_k = k;
   ev_arr_begin("objs");
   for (int i = 1; i < MAXO; i++) if (objs[i].obj) project(&objs[i], i);
@@ -283,6 +283,26 @@ int main(int argc, char** argv) {
       HC_TRY(made = copy(objs[src].obj));
       so->obj = made; so->kind = objs[src].kind; so->managed = 1;
       emit(objs, "copy", o, 0, 0, 0, src, "", hc_exc, 0);
+    } else if (hc_is(0, "xasg")) {
+      /* assign from a map of OTHER key and value types (other sizes: another node / slot layout) and back again: the old bindings
+         must be finalised with the layout they were built with; the contents are the source's each time */
+      volatile var saved = NULL; volatile long long n1 = -1; const char* x = "";
+      HC_TRY(saved = copy(so->obj));
+      if (saved && !hc_exc[0]) {
+        var akt = ktk == VT_ODD ? Int : Odd12, avt = vtk == VT_PROBE ? Int : Probe;
+        var alien = so->kind == 2 ? (var)new_raw(Tree, akt, avt) : (var)new_raw(Table, akt, avt);
+        for (int i = 0; i < 2; i++) {
+          var ak = akt == Int ? (var)new_raw(Int, $I(40 + i)) : (var)new_raw(Odd12, $I(40 + i));
+          var av = avt == Int ? (var)new_raw(Int, $I(7)) : (var)new_raw(Probe, $I(7));
+          set(alien, ak, av); del_raw(ak); del_raw(av);
+        }
+        HC_TRY(assign(so->obj, alien)); x = hc_exc;
+        if (!x[0]) { HC_TRY(n1 = (long long)len(so->obj)); x = hc_exc; }
+        del_raw(alien);
+        if (!x[0]) { HC_TRY(assign(so->obj, saved)); x = hc_exc; }
+      } else x = hc_exc;
+      if (saved) del(saved);
+      emit(objs, "xasg", o, 0, 0, n1, 0, "", x, 0);
     } else if (hc_is(0, "snap")) {
       emit(objs, "snap", o, 0, 0, 0, 0, "", "", 0);
     } else if (hc_is(0, "del")) {
